@@ -98,6 +98,28 @@ def sim_cases(tier):
                     c = dict(case, alg=alg,
                              delay={"mode": "table", "table": table})
                     out.append(("S-delayvec/%s" % label, c))
+    # static plans made for a slow machine, tasks moved to a faster one by the
+    # greedy algorithm (planned machine taken): the added delay fits inside
+    # the plan's slack and must still be flagged
+    for label, wa in (("indep2-big", dag("indep2", [4, 4])),
+                      ("fork-big", dag("fork", [1, 4, 4], [0, 0])),
+                      ("indep3-big", dag("indep3", [6, 6, 2]))):
+        n = len(wa["nodes"])
+        for machines in ([[1, 1], [2, 2]], [[1, 1], [4, 4], [2, 2]]):
+            obs = [mkobs("a", 0, 1, 1, 1, 1, "wa")]
+            cfg = mkcfg(machines, obs, (100, 10), (100, 10), 2, 2)
+            case = mkcase(cfg, {"wa": wa})
+            for target in (0, len(machines) - 1):
+                asg = {"a": {str(x[0]): target for x in wa["nodes"]}}
+                for kind in ("greedy", "dynamic"):
+                    for vec in itertools.product((0, 1, 2), repeat=n):
+                        table = {"a:%d" % x[0]: d
+                                 for x, d in zip(wa["nodes"], vec) if d}
+                        out.append(("S-delayvec/static-slack/%s" % label,
+                                    dict(case, alg={"kind": kind,
+                                                    "assign": asg},
+                                         delay={"mode": "table",
+                                                "table": table})))
     # two workflows: delayed task of the first finishes while the second runs
     wa = dag("chain2", [1, 1], [0])
     for s2 in (1, 2):
